@@ -120,6 +120,52 @@ func remake(rec []byte, cols []string, repl map[string]string) []byte {
 
 func packInt(n int) string { return core.Pack(core.IntVal(n).(core.Packable)) }
 
+// insertOrdered puts rec into the section at its place in the order of the
+// section's first index (load relies on the dump being sorted by it).
+func insertOrdered(sec *dumpSection, rec []byte) {
+	sch := query.NewAdminParser(sec.schema).Schema()
+	var flds []int
+	for _, c := range sch.Indexes[0].Columns {
+		flds = append(flds, slices.Index(sch.Columns, c))
+	}
+	tuple := func(r []byte) []string {
+		t := make([]string, len(flds))
+		for i, f := range flds {
+			t[i] = core.Record(string(r)).GetRaw(f)
+		}
+		return t
+	}
+	nt := tuple(rec)
+	at := len(sec.recs)
+	for i, r := range sec.recs {
+		if slicesCompare(tuple(r), nt) > 0 {
+			at = i
+			break
+		}
+	}
+	sec.recs = slices.Insert(sec.recs, at, rec)
+}
+
+// freshKeys gives the copy of a record fresh values in every key except the
+// one named keep ("" = all fresh).
+func freshKeys(mt *mTable, fresh int, keep string) map[string]string {
+	repl := map[string]string{}
+	for _, ix := range mt.idxs {
+		if ix.mode != 'k' || strings.Join(ix.cols, ",") == keep {
+			continue
+		}
+		switch last := ix.cols[len(ix.cols)-1]; last {
+		case "k":
+			repl["k"] = packInt(fresh)
+		case "q":
+			repl["q"] = packInt(900000 + fresh)
+		case "s":
+			repl["s"] = core.Pack(core.SuStr("zzfresh" + strconv.Itoa(fresh)))
+		}
+	}
+	return repl
+}
+
 // the check -------------------------------------------------------------------
 
 var fkHereRx = regexp.MustCompile(`fkhere\[[^\]]*\]`)
@@ -288,6 +334,22 @@ func TestC20(t *testing.T) {
 		if h.db.IsCorrupted() {
 			t.Fatalf("dump marked the database as corrupt")
 		}
+		// which tables will Compact build in an order different from the schema's?
+		multiKey, notFirst, notFirstRows := 0, 0, 0
+		func() {
+			rtr := h.db.NewReadTran()
+			for _, name := range m.tableNames() {
+				if m.tables[name].nkeys() >= 2 {
+					multiKey++
+				}
+				if ti := rtr.GetInfo(name); ti != nil && ti.SmallestKeyIndex(rtr.GetSchema(name).Indexes) != 0 {
+					notFirst++
+					if len(m.tables[name].rows) >= 2 {
+						notFirstRows++
+					}
+				}
+			}
+		}()
 		h.db.Close()
 		closed = true
 
@@ -399,6 +461,10 @@ func TestC20(t *testing.T) {
 		rec.Case(nt2 && m.tablesWithRows() >= 2, want)
 		rec.LabelIf(m.hasDeletedCol(), "db_with_dropped_column")
 		rec.LabelIf(m.hasFk(), "db_with_foreign_key")
+		rec.LabelIf(multiKey > 0, "db_with_table_with_2plus_keys")
+		rec.LabelIf(notFirst > 0, "db_with_smallest_key_not_first")
+		rec.LabelN("compacted_tables_smallest_key_not_first_2plus_rows", notFirstRows)
+		rec.LabelN("tables_with_2plus_keys", multiKey)
 		rec.LabelIf(len(m.views) > 0, "db_with_view")
 		rec.LabelIf(h.usedBig, "db_with_66KB_record")
 		rec.LabelIf(h.cnt["reopen"] > 0, "db_reopened")
@@ -472,9 +538,25 @@ func c20Mutations(t *rapid.T, rec *ev.Rec, m *model, df *dumpFile, path func(str
 		d := df.clone()
 		sec := d.table(name)
 		i := uniDraw(t, "mut_rec", len(sec.recs))
-		sec.recs = slices.Insert(sec.recs, i+1, sec.recs[i])
+		mt := m.tables[name]
+		what := "the whole record"
+		if mt.nkeys() >= 2 && uniDraw(t, "mut_whichkey", 100) < 60 {
+			// fresh values in all keys but one: a duplicate in that key only
+			var keys []string
+			for _, ix := range mt.idxs {
+				if ix.mode == 'k' {
+					keys = append(keys, strings.Join(ix.cols, ","))
+				}
+			}
+			keep := keys[uniDraw(t, "mut_keep", len(keys))]
+			what = "key(" + keep + ") only"
+			insertOrdered(sec, remake(sec.recs[i], cols(sec), freshKeys(mt, freshKey, keep)))
+			rec.Label("refused_duplicate_in_one_of_several_keys")
+		} else {
+			sec.recs = slices.Insert(sec.recs, i+1, sec.recs[i])
+		}
 		if err := load(d, "duplicate key"); err == nil {
-			t.Fatalf("LoadDatabase accepted a dump with a duplicated key in %s (record %d of %d re-appended)", name, i, len(sec.recs)-1)
+			t.Fatalf("LoadDatabase accepted a dump with a duplicated key in %s (record %d duplicated in %s)", name, i, what)
 		}
 		if fi, err := os.Stat(path("mut.db")); err != nil || fi.Size() != 0 {
 			t.Fatalf("LoadDatabase refused the dump (duplicate key) but replaced the target database file")
@@ -486,7 +568,7 @@ func c20Mutations(t *rapid.T, rec *ev.Rec, m *model, df *dumpFile, path func(str
 	if c := withRows(func(mt *mTable) bool {
 		for _, r := range mt.rows {
 			for col, v := range r {
-				if v != "" && mt.uniqueCol(col) {
+				if v != "" && mt.uniqueCol(col) && !keyCol(col) {
 					return true
 				}
 			}
@@ -501,7 +583,7 @@ func c20Mutations(t *rapid.T, rec *ev.Rec, m *model, df *dumpFile, path func(str
 		var cands []int
 		for i, r := range sec.recs {
 			for ci, col := range cs {
-				if mt.uniqueCol(col) && core.Record(string(r)).GetRaw(ci) != "" {
+				if mt.uniqueCol(col) && !keyCol(col) && core.Record(string(r)).GetRaw(ci) != "" {
 					cands = append(cands, i)
 					break
 				}
@@ -509,7 +591,7 @@ func c20Mutations(t *rapid.T, rec *ev.Rec, m *model, df *dumpFile, path func(str
 		}
 		if len(cands) > 0 {
 			i := cands[uniDraw(t, "mut_rec", len(cands))]
-			sec.recs = append(sec.recs, remake(sec.recs[i], cs, map[string]string{"k": packInt(freshKey)}))
+			insertOrdered(sec, remake(sec.recs[i], cs, freshKeys(mt, freshKey, "")))
 			if err := load(d, "duplicate unique value"); err == nil {
 				t.Fatalf("LoadDatabase accepted a dump with a duplicated non-empty unique value in %s", name)
 			}
@@ -527,10 +609,10 @@ func c20Mutations(t *rapid.T, rec *ev.Rec, m *model, df *dumpFile, path func(str
 		sec := d.table(name)
 		cs := cols(sec)
 		i := uniDraw(t, "mut_rec", len(sec.recs))
-		repl := map[string]string{"k": packInt(freshKey)}
+		repl := freshKeys(mt, freshKey, "")
 		blankUnique(mt, repl)
 		nr := remake(sec.recs[i], cs, repl)
-		sec.recs = append(sec.recs, nr)
+		insertOrdered(sec, nr)
 		if err := load(d, "duplicate in a plain index"); err != nil {
 			t.Fatalf("LoadDatabase refused a dump whose only duplicate is in a plain index of %s: %v", name, err)
 		}
@@ -548,7 +630,7 @@ func c20Mutations(t *rapid.T, rec *ev.Rec, m *model, df *dumpFile, path func(str
 		sec := d.table(name)
 		cs := cols(sec)
 		i := uniDraw(t, "mut_rec", len(sec.recs))
-		repl := map[string]string{"k": packInt(freshKey)}
+		repl := freshKeys(mt, freshKey, "")
 		blankUnique(mt, repl)
 		for _, ix := range mt.idxs {
 			if ix.fkT != "" {
@@ -556,7 +638,7 @@ func c20Mutations(t *rapid.T, rec *ev.Rec, m *model, df *dumpFile, path func(str
 			}
 		}
 		nr := remake(sec.recs[i], cs, repl)
-		sec.recs = append(sec.recs, nr)
+		insertOrdered(sec, nr)
 		if err := load(d, "dangling foreign key"); err != nil {
 			t.Fatalf("LoadDatabase refused a dump with dangling foreign key data in %s (documented: not re-checked): %v", name, err)
 		}
